@@ -336,6 +336,7 @@ pub fn run(args: &Args) -> i32 {
     let deadline = arg_u64(args, "deadline", 1800) as f64;
     let mut out = Out::create(arg_str(args, "out", "trace.ndjson"));
     let mut rng = rng_for(seed, "c14");
+    let mut skipped = 0;
     // explicit small matrices from the TLA+ generator
     if let Some(p) = args.get("mats") {
         for (i, m) in read_ndjson(p).iter().enumerate() {
@@ -351,6 +352,16 @@ pub fn run(args: &Args) -> i32 {
             match sh["alg"].as_str().unwrap() {
                 "gauss" => gauss_event(&mut out, &format!("gauss/{}", i), sh, &mat, deadline),
                 "lanczos" => {
+                    // Documented domain of block Lanczos: its first step draws random blocks until a
+                    // 64 x 64 Gram matrix built from the input is invertible, which never happens
+                    // unless the rank is well above 64 (and it slices 64 rows).  The harness only
+                    // *schedules* here: matrices outside the domain are not submitted at all.
+                    let vecs: Vec<Bits> = mat.cols.iter().map(|c| from_indices(c, mat.nrows)).collect();
+                    let hrank = eliminate(&vecs, words(mat.cols.len())).piv.iter().filter(|p| p.is_some()).count();
+                    if mat.nrows < 128 || hrank < 100 {
+                        skipped += 1;
+                        continue;
+                    }
                     for rep in 0..reps {
                         lanczos_event(&mut out, &format!("lanczos/{}", i), sh, &mat, rep, deadline);
                     }
@@ -360,6 +371,6 @@ pub fn run(args: &Args) -> i32 {
         }
     }
     let n = out.finish();
-    println!("{}", json!({"events": n}));
+    println!("{}", json!({"events": n, "lanczos_skipped_outside_domain": skipped}));
     0
 }
